@@ -120,7 +120,11 @@ def _ret_kind(ctx, fn, value: ast.expr | None, must: frozenset = frozenset()) ->
             return "none"
         vals = [a.value for a in walk_no_nested(fn.node) if isinstance(a, ast.Assign) and any(isinstance(t, ast.Name) and t.id == v.id for t in a.targets)]
         real = [x for x in vals if not (isinstance(x, ast.Constant) and x.value is None)]
-        if real and all(isinstance(x, ast.Call) and r.callee_qname(x) == "codemodder.codetf.ChangeSet" for x in real) and (False, f"{v.id} is None") in must:
+        def is_cs(x):
+            x = r.expand(x) if isinstance(x, ast.Name) else x
+            return isinstance(x, ast.Call) and r.callee_qname(x) == "codemodder.codetf.ChangeSet"
+
+        if real and all(is_cs(x) for x in real) and (False, f"{v.id} is None") in must:
             return "changeset"
     return "other"
 
